@@ -640,7 +640,7 @@ void ExpressionBuilder::expr_forall_begin(const char* name)
     typeFragments.pop();
 
     if (!type.is(CONSTANT)) {
-        type = type.create_prefix(CONSTANT);
+        type = type.create_prefix(CONSTANT, position);
     }
 
     push_frame(frame_t::create(frames.top()));
